@@ -32,11 +32,19 @@ Inductive step :=
 | SGenName               (* NameGenerator::gen / IdGenerator::gen (utils/id_gen.rs) on a generator OWNED by the call: the
                             generators live in the call's AnchorContext / Lowerer / Resolver, no static holds one (inventory:
                             no static, atomic or thread_local row); what is read is the call's own counter *)
+| SLogEntryPanics        (* debug::log_entry whose `entry` closure PANICS.  log_entry calls the closure while it holds the write lock
+                            (inventory rows `..:log_entry(closure)..` list what each of the ten closures does; MessageLogger's runs
+                            format!() over the caller's arguments): a panic there poisons the lock.  The closure is only called when
+                            a log is active and not suppressed. *)
 | SLogStart              (* debug::log_start  -- API call, never issued by compile *)
 | SLogFinish.            (* debug::log_finish -- API call, never issued by compile *)
 
 Definition compile_step (s : step) : bool :=
   match s with SLogStart | SLogFinish => false | _ => true end.
+
+(* the standing assumption about the entry closures: they do not panic *)
+Definition closure_safe (s : step) : bool :=
+  match s with SLogEntryPanics => false | _ => true end.
 
 Record gstate := mkG {
   g_log : option (list N * nat);      (* entries, suppress_count *)
@@ -79,6 +87,11 @@ Section Machine.
               match g_log g with
               | Some (es, O) => (mkG (Some (es ++ [e], O)) false (g_cells g), ONone, held)
               | _ => (g, ONone, held)
+              end
+          | SLogEntryPanics =>
+              match g_log g with
+              | Some (es, O) => (mkG (Some (es, O)) true (g_cells g), OPanic, held)    (* unwinds through the write guard: poisoned *)
+              | _ => (g, ONone, held)                                                  (* the closure is not called *)
               end
           | SLogEnabled => (g, ONone, held)
           | SSuppressInc =>
